@@ -13,6 +13,7 @@ use frost_core as fc;
 use frost_core::{Ciphersuite, Group};
 use serde_json::json;
 
+use crate::c15::scenario_preprocess_batch;
 use crate::common::*;
 use crate::indep::independent_verify;
 use crate::rng::{FixedRng, TestRng};
@@ -23,6 +24,8 @@ pub fn scenarios() -> Vec<Scenario> {
         scn!(scenario_rfc_recomputation, 4),
         scn!(scenario_identifier_encoding, 1),
         scn!(scenario_single_signer_interop, 1),
+        // pre-processing k pairs = k successive nonce_generate pairs from the stream (of C15; seeded2/C02_1 sits in preprocess)
+        scn!(scenario_preprocess_batch, 1),
     ]
 }
 
@@ -60,13 +63,38 @@ pub fn scenario_rfc_recomputation<C: Suite>(rng: &mut TestRng, p: &Params, notes
     let mut commitments = BTreeMap::new();
     // (hiding nonce, binding nonce, hiding commitment bytes, binding commitment bytes) per signer, by our own derivation
     let mut mine: BTreeMap<Vec<u8>, (Id<C>, Sc<C>, Sc<C>, Vec<u8>, Vec<u8>)> = BTreeMap::new();
+    let stream_kind = match rng.below(10) {
+        0 => "second-block-equals-first",
+        1 => "constant-byte",
+        2 => "same-stream-for-every-signer",
+        _ => "random",
+    };
+    notes.insert("random_streams".into(), json!(stream_kind));
+    let shared_stream = rng.bytes(64);
     for id in &signers {
         let kp = match keys.key_packages.get(id) {
             Some(k) => k,
             None => return skip("internal"),
         };
-        let stream = rng.bytes(64);
-        let (n, c) = fc::round1::commit::<C, _>(kp.signing_share(), &mut FixedRng::new(stream.clone()));
+        // mostly 64 random bytes; also the degenerate outputs a caller's source may produce (the quantifier of the nonce
+        // derivation covers every source output): second block equal to the first, one byte repeated, the same stream for every signer
+        let stream = match stream_kind {
+            "second-block-equals-first" => {
+                let a = rng.bytes(32);
+                [a.clone(), a].concat()
+            }
+            "constant-byte" => vec![[0x00u8, 0xff, rng.below(256) as u8][rng.below(3)]; 64],
+            "same-stream-for-every-signer" => shared_stream.clone(),
+            _ => rng.bytes(64),
+        };
+        let mut fixed = FixedRng::new(stream.clone());
+        let (n, c) = fc::round1::commit::<C, _>(kp.signing_share(), &mut fixed);
+        check(
+            fixed.pos == 64,
+            "commit(): one nonce pair consumes exactly 64 bytes of the random stream (RFC 9591 section 5.1: two calls of nonce_generate)",
+            "64",
+            fixed.pos.to_string(),
+        )?;
         let share_enc = kp.signing_share().serialize();
         let (r0, r1) = stream.split_at(32);
         let d = <C as Ciphersuite>::H3(&[r0, &share_enc].concat());
